@@ -10,7 +10,61 @@ THEOREMS = [
     "C10.set_nested_rollback",
     "C10.set_nested_error_keeps_data",
     "C10.discard_on_commit_counterexample",
+    # part B — the search model (RreModel/C09/Model.lean)
+    "C10.query_effect",
+    "C10.not_provable_restores",
+    "C10.query_frames_balanced",
+    "C10.query_no_leaked_frames",
+    "C10.query_inside_frame_rolls_back",
 ]
+LEAN_TARGETS = ["RreModel.C10.Theorems", "RreModel.C10.SearchTheorems"]
+LEAN_FILES = ["RreModel/C09/Model.lean", "RreModel/C09/Spec.lean", "RreModel/C09/Lemmas.lean"]
+EXTRA_BINS = ["c09"]
+N_B = {"quick": 1500, "thorough": 20000}
+
+
+def pre_lean(ctx):
+    import subprocess, os
+    subprocess.run(["lake", "build", "drv_c09"], cwd=os.path.join(os.path.dirname(os.path.dirname(os.path.abspath(__file__))), "lean"),
+                   capture_output=True, text=True)
+
+
+def extra(ctx):
+    """part B on the real code: the C09 generator (every strategy), oracle (iii) — facts restored when not provable,
+    no undo frame left open whatever the answer — evaluated by drv_c09 on the implementation's observations."""
+    import subprocess, os
+    root = os.path.dirname(os.path.dirname(os.path.abspath(__file__)))
+    binp = os.path.join(root, "harness", "target", "debug", "c09")
+    drv = os.path.join(root, "lean", ".lake", "build", "bin", "drv_c09")
+    cases = []
+    cdir = os.path.join(root, "corpus", "C09")
+    if os.path.isdir(cdir):
+        for f in sorted(os.listdir(cdir)):
+            if f.endswith(".case"):
+                cases += [l.rstrip("\n") for l in open(os.path.join(cdir, f)) if l.strip() and not l.startswith("#")]
+    g = subprocess.run([binp, "gen", str(ctx.seed + 7), str(N_B[ctx.tier]), ctx.tier], capture_output=True, text=True)
+    cases += [l for l in g.stdout.split("\n") if l]
+    e = subprocess.run([binp, "exec"], input="\n".join(cases) + "\n", capture_output=True, text=True)
+    impl = e.stdout.split("\n")[:len(cases)]
+    o = subprocess.run([drv, "oracle"], input="\n".join(c + " | " + i for c, i in zip(cases, impl)) + "\n", capture_output=True, text=True)
+    orc = o.stdout.split("\n")[:len(cases)]
+    fails, cov = [], {}
+    bad = {}
+    failing_goal_with_work = 0
+    for c, i, r in zip(cases, impl, orc):
+        if r.startswith("ok") and "notprovable" in r and "rules_fireable" in r:
+            failing_goal_with_work += 1
+        if r.startswith("fail leaked-frames") or r.startswith("fail not-restored") or i.startswith("panic") or not (r.startswith("ok") or r.startswith("fail")):
+            sig = "oracle:partB:" + (r.split()[1] if r.startswith("fail") else "crash")
+            bad.setdefault(sig, []).append({"case": c, "impl": i, "model": "", "oracle": r, "kind": "oracle"})
+    for sig, rs in bad.items():
+        rs.sort(key=lambda x: len(x["case"]))
+        fails.append((sig, rs[0], len(rs)))
+    cov["partB_cases"] = len(cases)
+    cov["partB_failing_goals_with_fireable_rules"] = failing_goal_with_work
+    cov["partB_violations"] = sum(len(v) for v in bad.values())
+    return fails, cov
+
 N = {"quick": 5000, "thorough": 50000}
 EXHAUSTIVE = {"quick": True, "thorough": True}
 RULE = ("part A: cases = corpus + EVERY sequence of length <= 6 over the alphabet {begin, commit, rollback, set k0:=1, "
@@ -20,11 +74,14 @@ RULE = ("part A: cases = corpus + EVERY sequence of length <= 6 over the alphabe
         "harness observes the call's result, the frame depth (hook) and get_all_facts/snapshot (values and type entries of "
         "k0..k2, canonical rendering); the model's observations are diffed against them and Spec C10.checkFrom (rollback = "
         "store at the matching begin, commit/begin keep the store, no-frame close is a no-op, mutators touch one key) is "
-        "evaluated on the implementation's observations. Non-trivial = some rollback closed a frame and changed the store.")
+        "evaluated on the implementation's observations. Non-trivial = some rollback closed a frame and changed the store. "
+        "part B: corpus/C09 + N_B problems from the C09 generator (every strategy, max_depth 0..6, max_solutions 1/3) run on "
+        "BackwardEngine::query; oracle (iii): not provable => get_all_facts after == before, undo depth after == 0 whatever the answer.")
 TRUSTED = [
     "Lean 4.33 kernel; axioms of every property theorem within {propext, Classical.choice, Quot.sound} (audited each run)",
     "hand-written model RreModel/C10/Model.lean tied to src/engine/facts.rs by the correspondence check only (differential testing)",
-    "harness/src/bin/c10.rs, Driver/C10.lean parsing/printing glue, check.py diff",
+    "harness/src/bin/c10.rs, Driver/C10.lean parsing/printing glue, check.py diff; part B: harness/src/bin/c09.rs, Driver/C09.lean",
+    "part B theorems are about the search model RreModel/C09/Model.lean, tied to src/backward/search.rs by the C09 correspondence check",
     "hook Facts::verif_undo_depth (cfg rre_verif, read-only) reports the frame depth",
 ]
 ASSUMPTIONS = [
